@@ -79,6 +79,6 @@ example :
     let ioReader := GoType.named "io" "io" "Reader" .defined [] true false
     let alphaT := GoType.named "x/alpha" "alpha" "T" .defined [] false false
     let m : MethodIn := ⟨"Do", [⟨"r", ioReader, some alphaT⟩], [⟨"", ioReader, some alphaT⟩], false⟩
-    ((methodData reg m).1.paths, (methodData reg m).2.2.1.map (·.typeString)) = (["x/alpha"], ["alpha.T", "alpha.T"]) := by decide
+    ((methodData reg [] m).1.paths, (methodData reg [] m).2.2.1.map (·.typeString)) = (["x/alpha"], ["alpha.T", "alpha.T"]) := by decide
 
 end Mockery.C13
